@@ -233,6 +233,11 @@ int ops_misc(char **args, int na)
 			vf_min_block_size = kvnum(kvs, nkv, "minbs", 16);
 			mtbl_writer_options_set_block_size(wo, kvnum(kvs, nkv, "bs", 64));
 			mtbl_writer_options_set_block_restart_interval(wo, kvnum(kvs, nkv, "ri", 2));
+			/* pool=<n>: the same writer with a thread pool — the blocks are then written by the result-handler thread,
+			   in order, so the sequence of write(2) calls (and the script position of each) is unchanged */
+			long npool = kvnum(kvs, nkv, "pool", -1);
+			struct mtbl_threadpool *tp = NULL;
+			if (npool >= 0) { tp = mtbl_threadpool_init((size_t)npool); mtbl_writer_options_set_threadpool(wo, tp); }
 			int fd = open(path, O_RDWR | O_CREAT | O_EXCL, 0644);
 			struct mtbl_writer *w = mtbl_writer_init_fd(fd, wo);
 			vf_write_armed = 1;
@@ -247,6 +252,7 @@ int ops_misc(char **args, int na)
 			}
 			mtbl_writer_destroy(&w);
 			vf_write_armed = 0;
+			if (tp) mtbl_threadpool_destroy(&tp);
 			FILE *cf = fopen(cpath, "w");
 			for (int c = 0; c < vf_write_ncalls; c++) fprintf(cf, "%s%zu", c ? "," : "", vf_write_calls[c].n);
 			fclose(cf);
